@@ -73,7 +73,12 @@ static Run doRun(kg::Case& k, bool wantWeights)
   const int nvar = k.nvar, nt = (int)k.tx.size();
   R.nt = nt; R.nvar = nvar;
   if (!model->isValid()) { R.why = "model-invalid"; return R; }
-  int err = kriging(dbin.get(), dbout.get(), model.get(), neigh.get(), EKrigOpt::POINT, true, true, false);
+  const bool block      = k.targetKind == kg::T_BLOCK;
+  const EKrigOpt calcul = block ? EKrigOpt::BLOCK : EKrigOpt::POINT;
+  const DbGrid* grid    = dynamic_cast<const DbGrid*>(dbout.get());
+  VectorInt ndiscs(k.ndiscs.begin(), k.ndiscs.end());
+  int err = k.perCell ? krigcell(dbin.get(), dbout.get(), model.get(), neigh.get(), true, true, ndiscs)
+                      : kriging(dbin.get(), dbout.get(), model.get(), neigh.get(), calcul, true, true, false, ndiscs);
   if (err) { R.why = "kriging-error"; return R; }
   auto nE = namesWithSuffix(dbout.get(), ".estim"), nS = namesWithSuffix(dbout.get(), ".stdev");
   if ((int)nE.size() != nvar || (int)nS.size() != nvar) { R.why = "columns"; return R; }
@@ -96,7 +101,7 @@ static Run doRun(kg::Case& k, bool wantWeights)
   R.estMag.assign(nt, std::vector<double>(nvar, 0)); R.varMag = R.estMag; R.c00 = R.estMag; R.sol.resize(nt);
   {
     KrigingSystem ks(dbin.get(), dbout.get(), model.get(), neigh.get());
-    if (ks.updKrigOptEstim(uE, uS, -1) || !ks.isReady()) { R.why = "ksys-not-ready"; return R; }
+    if (ks.updKrigOptEstim(uE, uS, -1) || ks.setKrigOptCalcul(calcul, ndiscs, k.perCell) || !ks.isReady()) { R.why = "ksys-not-ready"; return R; }
     for (int it = 0; it < nt; it++)
     {
       ks.estimate(it);
@@ -108,10 +113,7 @@ static Run doRun(kg::Case& k, bool wantWeights)
       if (itc == cache.end()) itc = cache.emplace(R.nbgh[it], std::make_unique<refk::System>(k.data, setup, R.nbgh[it])).first;
       const refk::System& sys = *itc->second;
       if (!sys.base.ok || sys.base.ndata < sys.base.ndrift || sys.base.ndata == 0 || sys.base.cond > KMAX) continue;
-      refk::Target t;
-      t.x = k.tx[it];
-      if (k.nfex > 0) t.f = k.tf[it];
-      refk::Sol s  = sys.solve(t);
+      refk::Sol s  = sys.solve(kg::refTarget(k, it, grid));
       R.usable[it] = 1;
       R.cond[it]   = (double)s.cond;
       for (int jv = 0; jv < nvar; jv++)
@@ -155,7 +157,6 @@ static void cmpRuns(Ctx& c, const std::string& rel, const std::string& cls, cons
 static void run_case(Rng& r, Ctx& c)
 {
   kg::Options opt;
-  opt.allowBlock = false;
   opt.maxN       = 30;
   opt.maxTargets = 8;
   opt.allowUndefTargetDrift = false;
@@ -164,9 +165,13 @@ static void run_case(Rng& r, Ctx& c)
   kg::setSpace(k.ndim);
   c.setSig(k.sig());
   c.puts("cfg", k.sig());
+  c.put("case", kg::describe(k));
   const int nvar = k.nvar;
-  const std::string cls = fmt("%s:%s:%s", k.neighKind == kg::N_UNIQUE ? "unique" : "moving", k.driftOrder < 0 ? "mean" : "drift",
-                              nvar > 1 ? "multi" : "mono");
+  const std::string cls = fmt("%s:%s:%s%s", k.neighKind == kg::N_UNIQUE ? "unique" : "moving", k.driftOrder < 0 ? "mean" : "drift",
+                              nvar > 1 ? "multi" : "mono", k.targetKind == kg::T_BLOCK ? ":block" : "");
+  // relations that always use point targets of their own (exactness, cross-validation)
+  const std::string cls0 = fmt("%s:%s:%s", k.neighKind == kg::N_UNIQUE ? "unique" : "moving", k.driftOrder < 0 ? "mean" : "drift",
+                               nvar > 1 ? "multi" : "mono");
   // sub-generators are drawn up front so that every relation sees the same stream whatever happens before it
   Rng rExact = Rng(r.next()), rShift = Rng(r.next()), rLin = Rng(r.next()), rPerm = Rng(r.next()), rTrans = Rng(r.next()),
       rXv = Rng(r.next());
@@ -233,7 +238,7 @@ static void run_case(Rng& r, Ctx& c)
     kg::Case e = k;
     e.targetKind = kg::T_POINTS;
     e.tx.clear(); e.tf.clear();
-    e.gnx.clear(); e.gang.clear();
+    e.gnx.clear(); e.gang.clear(); e.ndiscs.clear(); e.perCell = false; e.blex.clear();
     std::vector<int> which;
     for (int i : rExact.perm(k.n))
     {
@@ -272,7 +277,7 @@ static void run_case(Rng& r, Ctx& c)
             if (hasV) { c.probe("exact-skipped-verr"); continue; }
             bool nug = false;
             for (auto& st : k.structs) nug = nug || st.name == "NUGGET";
-            std::string cl2 = cls + (nug ? ":nugget" : ":no-nugget");
+            std::string cl2 = cls0 + (nug ? ":nugget" : ":no-nugget");
             c.close("exact-estim", "C02:exact:estim:" + cl2, ex.est[jv][q], z, tolE(ex, q, jv),
                     fmt("datum %d var %d cond %.3g %s", i, jv, ex.cond[q], k.sig().c_str()));
             double tv = tolV(ex, q, jv);
@@ -436,7 +441,7 @@ static void run_case(Rng& r, Ctx& c)
   // shortcut reads the wrong rows of the inverse (or beyond it: Eigen assertion / out-of-bounds read).
   if (k.neighKind == kg::N_UNIQUE && nvar == 1 && k.n >= nbfl + 4 && !(AVOID_XVALID_FUNDEF && k.fUndef))
   {
-    const std::string xcls = cls + (k.fUndef ? ":undefined-external-drift" : "");
+    const std::string xcls = cls0 + (k.fUndef ? ":undefined-external-drift" : "");
     auto dbin  = kg::makeDataDb(k);
     auto model = kg::makeModel(k);
     auto neigh = kg::makeNeigh(k);
@@ -460,7 +465,7 @@ static void run_case(Rng& r, Ctx& c)
         if (!m.data.f.empty()) m.data.f.erase(m.data.f.begin() + i);
         m.n--;
         m.targetKind = kg::T_POINTS;
-        m.gnx.clear(); m.gang.clear();
+        m.gnx.clear(); m.gang.clear(); m.ndiscs.clear(); m.perCell = false; m.blex.clear();
         m.tx.assign(1, k.data.x[i]);
         m.tf.clear();
         if (k.nfex > 0) m.tf.assign(1, k.data.f[i]);
